@@ -35,7 +35,7 @@ InsertEv ==
     /\ PostOK(Ev)
     /\ InsertOK(store, Ev.now, Ev.name, Ev.type, Ev.data, Ev.ttl, Post(Ev))
     /\ store' = Post(Ev)
-    /\ used' = UsedAfterInsert(used, Post(Ev), Ev.now, Ev.name)
+    /\ used' = UsedAfterInsert(used, Post(Ev), Ev.now, Ev.name, Ev.type)
     /\ UNCHANGED <<desired, direct>>
 
 SkippedEv ==
@@ -48,7 +48,7 @@ GetEv ==
     /\ PostOK(Ev)
     /\ GetOK(store, Ev.now, Ev.name, Ev.qtype, Ev.ret, Post(Ev))
     /\ store' = Post(Ev)
-    /\ used' = UsedAfterGet(used, store, Post(Ev), Ev.now, Ev.name, Ev.ret)
+    /\ used' = UsedAfterGet(used, store, Post(Ev), Ev.now, Ev.name, Ev.qtype, Ev.ret)
     /\ UNCHANGED <<desired, direct>>
 
 PruneEv ==
